@@ -42,6 +42,26 @@ func vfC10(env *vfc.Env) {
 	run := model.NewRunner(sut, m, res, id, model.Options{Prefix: "c10", Replay: a})
 	keys := vfKeysForServed(r, 40, a.Cfg)
 	depth := map[int]int{1: 0, 16: 1, 256: 2}[a.Cfg.NumBucket]
+	checkListing := func(key, phase string) {
+		v, _, live := m.Get(key)
+		if !live || run.Failed() {
+			return
+		}
+		h := ref.KeyHash([]byte(key))
+		pfx := ref.PrefixString(ref.Digits(h, depth+a.Cfg.TreeHeight-1))
+		it, err := sut.sc.Get("@" + pfx)
+		if err != nil || it == nil {
+			run.Fail("c10:listing-error:"+phase, fmt.Sprintf("get @%s (leaf of live key %q): item %v err %v", pfx, key, it, err))
+			return
+		}
+		res.Eval(1)
+		res.Event("c10.listing_vhash_checks."+phase, 1)
+		want := fmt.Sprintf("%016x %d ", h, ref.ValueHash(v))
+		if !strings.Contains(string(it.Body), want) && strings.Contains(string(it.Body), fmt.Sprintf("%016x ", h)) {
+			_, comp := sut.Info(key)
+			run.Fail("c10:listing-vhash:"+phase, fmt.Sprintf("listing @%s shows key %q (hash %016x, %d bytes, stored compressed: %v) with another value hash than that of the uncompressed bytes (%d):\n%s", pfx, key, h, len(v), comp, ref.ValueHash(v), it.Body))
+		}
+	}
 	for i := 0; i < a.Values && !run.Failed(); i++ {
 		key := keys[r.Intn(len(keys))]
 		class := ref.ValueClasses[r.Intn(len(ref.ValueClasses))]
@@ -93,20 +113,22 @@ func vfC10(env *vfc.Env) {
 		res.Event("c10."+outcome, 1)
 		res.Event("c10.side."+strings.Split(side, "/")[0]+"."+outcome, 1)
 		// the value hash exposed to synchronisation: item line of the listing at the key's full hash
-		h := ref.KeyHash([]byte(key))
-		pfx := ref.PrefixString(ref.Digits(h, depth+a.Cfg.TreeHeight-1))
-		if it, err := sut.sc.Get("@" + pfx); err == nil && it != nil {
-			want := fmt.Sprintf("%016x %d ", h, ref.ValueHash(spec.Build()))
-			if !strings.Contains(string(it.Body), want) && strings.Contains(string(it.Body), fmt.Sprintf("%016x ", h)) {
-				run.Fail("c10:listing-vhash", fmt.Sprintf("listing @%s shows key %q (hash %016x) with another value hash than that of the uncompressed bytes (%d):\n%s", pfx, key, h, ref.ValueHash(spec.Build()), it.Body))
-			}
-		}
+		checkListing(key, "after-set")
 		if i%40 == 39 {
-			run.Step(model.Op{K: "restart", Rm: []string{"all", "s", "hash"}[r.Intn(3)]})
+			rm := []string{"all", "s", "hash"}[r.Intn(3)]
+			run.Step(model.Op{K: "restart", Rm: rm})
+			// ... and again for every live key once the tree has been rebuilt from
+			// hint files (which may themselves have been rebuilt from the data files)
+			for _, k := range keys {
+				checkListing(k, "after-restart-rm-"+rm)
+			}
 		}
 	}
 	if !run.Failed() {
 		run.Step(model.Op{K: "restart", Rm: "all"})
+		for _, k := range keys {
+			checkListing(k, "after-restart-rm-all")
+		}
 	}
 	sut.Destroy()
 	res.Sample(map[string]interface{}{"values": a.Values, "cfg": a.Cfg})
